@@ -270,8 +270,14 @@ class Seams:
         for fn in fns:
             code = getattr(fn, "__code__", None)
             if code is not None:
-                mon.set_local_events(tool, code, mon.events.LINE)
+                ev = mon.events.LINE
+                if fn in (UST.append, UST._wake):
+                    # the producer side of the queue hand-over is tiny: pre-empt it between any two bytecode
+                    # instructions, so that even a race inside one statement is within reach
+                    ev |= mon.events.INSTRUCTION
+                mon.set_local_events(tool, code, ev)
                 self._mon_codes.append(code)
+        mon.register_callback(tool, mon.events.INSTRUCTION, lambda code, off: k.line_event())
         self._mon_tool = tool
 
     def _remove_line_preemption(self):
@@ -281,6 +287,7 @@ class Seams:
         for code in self._mon_codes:
             mon.set_local_events(self._mon_tool, code, 0)
         mon.register_callback(self._mon_tool, mon.events.LINE, None)
+        mon.register_callback(self._mon_tool, mon.events.INSTRUCTION, None)
         try:
             mon.free_tool_id(self._mon_tool)
         except Exception:       # noqa
